@@ -264,9 +264,13 @@ func (t *trace) request(o op, prev []float64) {
 			line(t.start)
 		}
 		// Close directly after a MoveTo: the documented meaning is an empty closed subpath at that
-		// point (pen stays there). The builder removes the MoveTo, so its pen falls back to the end of
-		// the previous record; remember the situation so that a resulting mismatch gets its own kind.
-		if !t.open && len(prev) >= 4 && prev[len(prev)-1] == 1 {
+		// point (pen stays there). The builder removes the MoveTo when the path is otherwise empty or
+		// the previous subpath is closed, so its pen falls back; remember the situation so that a
+		// resulting mismatch gets its own kind.
+		if !t.open && len(prev) >= 4 && prev[len(prev)-1] == 1 && (len(prev) == 4 || prev[len(prev)-5] == 32) {
+			// only on an otherwise empty path or after a closed subpath (recorded remainder of the
+			// defect); on top of an open subpath the MoveTo is kept since /repo 60bb9c2 and a mismatch
+			// there is an ordinary trace failure
 			t.mz = true
 		}
 		t.pen, t.open = t.start, false
